@@ -45,6 +45,9 @@ pub fn run(prop: &str, tier: Tier, seed: i64, replay: Option<&str>) -> i32 {
             }
             ck.corpus_stage();
             ck.ladder_stage();
+            if prop == "C02" {
+                history_stage(&mut ck);
+            }
             // (the serde monitor is ten times as expensive per string: ASCII only in C16's quick tier)
             ck.scalar_position_stage(prop == "C16" && tier == Tier::Quick);
             if matches!(prop, "C04" | "C06" | "C10") {
@@ -89,6 +92,7 @@ pub fn run(prop: &str, tier: Tier, seed: i64, replay: Option<&str>) -> i32 {
         "C12" => {
             hashorder_stage(&mut ck);
             checksum_stage(&mut ck);
+            history_stage(&mut ck);
             ck.lens_stage(plans_for(prop, tier));
             ck.ladder_stage();
             let (a, r) = crate::engine_b::spelling_stage(prop, monitors_for(prop), tier);
@@ -122,6 +126,7 @@ pub fn run(prop: &str, tier: Tier, seed: i64, replay: Option<&str>) -> i32 {
         "C15" => {
             let (a, r) = sweeps::c15_sweep(tier);
             ck.add_stage(a, r);
+            history_stage(&mut ck);
         },
         #[cfg(feature = "typed")]
         "C18" => {
@@ -129,11 +134,16 @@ pub fn run(prop: &str, tier: Tier, seed: i64, replay: Option<&str>) -> i32 {
             ck.add_stage(a, r);
             ck.lens_stage(plans_for(prop, tier));
             ck.ladder_stage();
+            history_stage(&mut ck);
         },
-        "C11" => c11(&mut ck),
+        "C11" => {
+            c11(&mut ck);
+            history_stage(&mut ck);
+        },
         "C14" => shapes_stage(&mut ck),
         "C09" => {
             builder_stages(&mut ck, true);
+            history_stage(&mut ck);
             let (a, r) = crate::m_builder::scalar_fields::<String>(prop);
             ck.add_stage(a, r);
             #[cfg(feature = "typed")]
@@ -180,6 +190,8 @@ fn builder_stages(ck: &mut Check, with_product: bool) {
             let (a, r) = product::<T>(ck.prop, mon, ck.tier);
             ck.add_stage(a, r);
         }
+        let (a, r) = ladders::<T>(ck.prop, mon, ck.tier);
+        ck.add_stage(a, r);
         // deeper histories over the reduced action set
         let m = BModel::<T>::new_sharp(ck.prop, mon);
         let sharp_depth = match (ck.tier, ck.prop) {
@@ -206,6 +218,12 @@ fn builder_stages(ck: &mut Check, with_product: bool) {
     one::<String>(ck, mon, depth, with_product);
     #[cfg(feature = "typed")]
     one::<purl::PackageType>(ck, mon, depth, with_product);
+}
+
+/// Engine H: history independence (depth 2 and 3 sequences of operations on independent objects)
+fn history_stage(ck: &mut Check) {
+    let (a, r) = crate::hist::explore(ck.prop, ck.tier);
+    ck.add_stage(a, r);
 }
 
 /// Single-fault strings of Engine B as plain inputs for the monitors of another property.
@@ -453,6 +471,7 @@ pub fn replay_case(prop: &'static str, case: &Value) -> Option<Vec<Violation>> {
         #[cfg(purl_verif)]
         "hashorder" => return crate::hashorder::replay(case),
         "spell" => return crate::engine_b::replay(prop, monitors_for(prop), case),
+        "history" => return crate::hist::replay(prop, case),
         "pool-pair" => return crate::pools::replay_pair(case),
         "transcript" => {
             let (a, _) = crate::transcript::compare(Tier::Quick, case["chunk"].as_str());
@@ -463,6 +482,9 @@ pub fn replay_case(prop: &'static str, case: &Value) -> Option<Vec<Violation>> {
         "builder-bfs" => return crate::xstate::replay(&crate::m_builder::BModel::<String>::new(prop, monitors_for(prop), 2), case),
         #[cfg(feature = "typed")]
         "builder-typed-bfs" => return crate::xstate::replay(&crate::m_builder::BModel::<purl::PackageType>::new(prop, monitors_for(prop), 2), case),
+        "builder-bfs-ladder" => return crate::m_builder::replay_ladder::<String>(prop, monitors_for(prop), case),
+        #[cfg(feature = "typed")]
+        "builder-typed-bfs-ladder" => return crate::m_builder::replay_ladder::<purl::PackageType>(prop, monitors_for(prop), case),
         "builder-bfs-product" => return crate::m_builder::replay_product::<String>(prop, monitors_for(prop), case),
         #[cfg(feature = "typed")]
         "builder-typed-bfs-product" => return crate::m_builder::replay_product::<purl::PackageType>(prop, monitors_for(prop), case),
